@@ -25,6 +25,9 @@ type Scenario struct {
 	// MutProbe may modify the object; it runs on a re-execution of the prefix that is then discarded.
 	MutProbe func(x *core.Exec, ctx any) *core.Failure
 	NoRace   bool // disable plain-access race detection for this scenario
+	// AfterAll is evaluated once after the exploration completed without violation (reachability
+	// facts accumulated by the harness over all executions).
+	AfterAll func() *core.Failure
 }
 
 const Unbounded = 1 << 20
@@ -396,6 +399,11 @@ func Explore(sc Scenario, bound int, deadline time.Time) Result {
 			break
 		}
 		res.MaxBound = b
+	}
+	if res.Violation == nil && res.CapHit == "" && sc.AfterAll != nil {
+		if f := sc.AfterAll(); f != nil {
+			res.Violation = &Violation{Scenario: sc.Name, Sig: f.Sig, What: f.What, Bound: res.MaxBound, Probe: "afterall"}
+		}
 	}
 	res.Histories = len(hist)
 	res.Outcomes = len(outcomes)
